@@ -257,7 +257,8 @@ def main(argv):
           f"distinct_nontrivial={n_nontrivial} wall={wall:.1f}s "
           f"known={len(known_seen)} new={len(new)} excluded_shards={len(excluded)}")
     for e in excluded[:4]:
-        print(f"  excluded shard {e['shard']}: {e['why'][-400:]}")
+        print(f"  excluded shard {e['shard']}: " + ' | '.join(
+            x.strip() for x in e['why'][-700:].splitlines() if x.strip())[-600:])
     if os.environ.get('VERIF_VERBOSE'):
         print(json.dumps(counters, indent=1, sort_keys=True))
     if new:
